@@ -817,6 +817,7 @@ func C11(items []Item, pre Predef) (vs []V, checked int) {
 	st := stOther
 	sleepReq := false
 	cycle := 0
+	activePings := 0 // PINGREQs (without client ID) of the current active phase not answered yet
 	type inj struct {
 		it       Item
 		needsReg bool
@@ -864,6 +865,8 @@ func C11(items []Item, pre Predef) (vs []V, checked int) {
 				if st == stAsleep {
 					st = stWaking
 					cycle++
+				} else if st == stOther && len(p.ClientID) == 0 {
+					activePings++
 				}
 			case snref.CONNECT:
 				if st != stOther {
@@ -872,6 +875,17 @@ func C11(items []Item, pre Predef) (vs []V, checked int) {
 			}
 		case it.Kind == world.SNOut:
 			p := it.SN
+			if st == stOther && cycle > 0 && p != nil && p.Type == snref.PINGRESP {
+				// back in the active state after at least one sleep: a PINGRESP answers a PINGREQ of this active
+				// phase; the answer to a ping that was outstanding when the client fell asleep is dropped, and the
+				// gateway's own pings (at wake-up, at CONNECT) are none of the client's business
+				checked++
+				if activePings == 0 {
+					vs = append(vs, V{"C11", "pingresp-without-pingreq|active-after-sleep", fmt.Sprintf("gateway sent a PINGRESP to the active client which has no PINGREQ outstanding (after sleep cycle %d)", cycle), it.Seq})
+				} else {
+					activePings--
+				}
+			}
 			if st == stAsleep {
 				checked++
 				vs = append(vs, V{"C11", "sent-while-asleep|" + typeOf(it.B) + fmt.Sprintf("|cycle=%d", min(cycle, 2)), fmt.Sprintf("gateway sent %v to a sleeping client (sleep cycle %d)", p, cycle+1), it.Seq})
@@ -883,6 +897,7 @@ func C11(items []Item, pre Predef) (vs []V, checked int) {
 			case snref.DISCONNECT:
 				if sleepReq {
 					sleepReq = false
+					activePings = 0
 					if st != stAsleep {
 						st = stAsleep
 					}
